@@ -13,6 +13,7 @@ CONSTANTS
   Weak_RejectNotBlacklisted = FALSE
   Weak_FormatNotBlacklisted = FALSE
   Weak_NoSyncerLevelCheck = FALSE
+  Weak_RemovePeerClearsBlacklist = FALSE
 INIT Init
 NEXT Next
 CHECK_DEADLOCK FALSE
